@@ -128,7 +128,7 @@ class SymTD:
 
     def total_seconds(self):
         from .num import SymReal
-        return SymReal(z3.ToReal(self._e.z()) / 1000000)
+        return SymReal(z3.ToReal(self._e.z()) / 1000000, (self._e, 1000000))
 
     def __bool__(self):
         r = _cmpb("ne", self._e, 0)
